@@ -351,7 +351,10 @@ func assignOne(destValue reflect.Value, taken any, to string) (reflect.Value, er
 			return destValue, fmt.Errorf("field mapping to a struct field but output is not a struct, type=%v", destValue.Type())
 		}
 
-		field := destValue.FieldByName(path)
+		field, err := fieldByName(destValue, path)
+		if err != nil {
+			return destValue, err
+		}
 		if !field.IsValid() {
 			return destValue, fmt.Errorf("field mapping to a struct field, but field not found. field=%v, outputType=%v", path, destValue.Type())
 		}
@@ -398,8 +401,26 @@ func newInstanceByType(typ reflect.Type) reflect.Value {
 	}
 }
 
+// fieldByName is reflect.Value.FieldByName without its panic: a field promoted through an embedded pointer that is nil
+// in this value cannot be reached, which is an error of this request. A field the type does not have yields the
+// invalid Value, like FieldByName.
+func fieldByName(v reflect.Value, name string) (reflect.Value, error) {
+	sf, ok := v.Type().FieldByName(name)
+	if !ok {
+		return reflect.Value{}, nil
+	}
+	f, err := v.FieldByIndexErr(sf.Index)
+	if err != nil {
+		return reflect.Value{}, fmt.Errorf("field mapping through an embedded pointer that is nil. field=%v, type=%v: %w", name, v.Type(), err)
+	}
+	return f, nil
+}
+
 func checkAndExtractFromField(fromField string, input reflect.Value) (reflect.Value, error) {
-	f := input.FieldByName(fromField)
+	f, err := fieldByName(input, fromField)
+	if err != nil {
+		return reflect.Value{}, err
+	}
 	if !f.IsValid() {
 		return reflect.Value{}, fmt.Errorf("field mapping from a struct field, but field not found. field=%v, inputType=%v", fromField, input.Type())
 	}
@@ -507,7 +528,10 @@ func checkAndExtractToField(toField string, output, toSet reflect.Value) (field 
 		return reflect.Value{}, fmt.Errorf("field mapping to a struct field but output is not a struct, type=%v", output.Type())
 	}
 
-	field = output.FieldByName(toField)
+	field, err = fieldByName(output, toField)
+	if err != nil {
+		return reflect.Value{}, err
+	}
 	if !field.IsValid() {
 		return reflect.Value{}, fmt.Errorf("field mapping to a struct field, but field not found. field=%v, outputType=%v", toField, output.Type())
 	}
